@@ -747,6 +747,131 @@ theorem exec_dw_block_correct (m m' : Mem) (ctx : Ctx) (b : BlockOp) (regs : Reg
     rw [this]
     simp [Array.getD_eq_getD_getElem?, hv1]
 
+/-! ### … and for pooling blocks -/
+
+/-- the pooling branch of `execBlock`, inverted -/
+theorem poolBranch_ok (m : Mem) (ctx : Ctx) (b : BlockOp) (rounding : Rounding) (gs : Bool) (ifm : Array Int) (H W : Nat)
+    (out : List Int) (h : poolBranch m ctx b rounding gs ifm H W = .ok out) :
+    ∃ scale shift : Nat,
+      (gs = true → ∃ s, b.ofmScale = some s ∧ scale = lo32 s ∧ shift = hi6 s) ∧ (gs = false → scale = 1 ∧ shift = 0) ∧
+      b.subOp ≤ 1 ∧ b.dilationX = 1 ∧ b.dilationY = 1 ∧
+      ∀ oy ox oc, oy < b.ofm.height → ox < b.ofm.width → oc < b.ofm.depth →
+        ∃ pv v, out[(oy * b.ofm.width + ox) * b.ofm.depth + oc]? = some v ∧
+          poolValue b rounding gs scale shift
+            (windowVals H W (fun y x => ifm.getD ((y * W + x) * b.ifm.depth + oc) 0) b.kernelH b.kernelW b.strideY b.strideX b.padTop b.padLeft oy ox) = .ok pv ∧
+          applyActivation m ctx b (clamp pv b.actMin b.actMax) = .ok v := by
+  unfold poolBranch at h
+  simp only [] at h
+  split at h
+  · simp [throw, throwThe, MonadExcept.throw, bind, Except.bind] at h
+  · rename_i hsub
+    split at h
+    · simp [throw, throwThe, MonadExcept.throw, bind, Except.bind] at h
+    · rename_i hdil
+      -- the scale selection
+      have key : ∀ (sc sh : Nat),
+          ((coords3 b.ofm.height b.ofm.width b.ofm.depth).mapM fun (e : Nat × Nat × Nat) => do
+            let v ← poolValue b rounding gs sc sh
+              (windowVals H W (fun y x => ifm.getD ((y * W + x) * b.ifm.depth + e.2.2) 0) b.kernelH b.kernelW b.strideY b.strideX b.padTop b.padLeft e.1 e.2.1)
+            applyActivation m ctx b (clamp v b.actMin b.actMax)) = .ok out →
+          ∀ oy ox oc, oy < b.ofm.height → ox < b.ofm.width → oc < b.ofm.depth →
+            ∃ pv v, out[(oy * b.ofm.width + ox) * b.ofm.depth + oc]? = some v ∧
+              poolValue b rounding gs sc sh
+                (windowVals H W (fun y x => ifm.getD ((y * W + x) * b.ifm.depth + oc) 0) b.kernelH b.kernelW b.strideY b.strideX b.padTop b.padLeft oy ox) = .ok pv ∧
+              applyActivation m ctx b (clamp pv b.actMin b.actMax) = .ok v := by
+        intro sc sh hm oy ox oc hy hx hc
+        have ⟨_, hg⟩ := mapM_except_get _ _ out hm
+        obtain ⟨v, hv1, hv2⟩ := hg _ (oy, ox, oc) (coords3_get _ _ _ oy ox oc hy hx hc)
+        simp only [] at hv2
+        cases hp : poolValue b rounding gs sc sh
+            (windowVals H W (fun y x => ifm.getD ((y * W + x) * b.ifm.depth + oc) 0) b.kernelH b.kernelW b.strideY b.strideX b.padTop b.padLeft oy ox) with
+        | error e => rw [hp] at hv2; simp [bind, Except.bind] at hv2
+        | ok pv =>
+          rw [hp] at hv2
+          simp only [bind, Except.bind] at hv2
+          exact ⟨pv, v, hv1, rfl, hv2⟩
+      have hd : b.dilationX = 1 ∧ b.dilationY = 1 := by
+        constructor
+        · by_cases h1 : b.dilationX = 1
+          · exact h1
+          · exact absurd (Or.inl h1) hdil
+        · by_cases h1 : b.dilationY = 1
+          · exact h1
+          · exact absurd (Or.inr h1) hdil
+      cases gs with
+      | true =>
+        simp only [if_true] at h
+        cases hs : b.ofmScale with
+        | none => rw [hs] at h; simp [throw, throwThe, MonadExcept.throw, bind, Except.bind] at h
+        | some s =>
+          rw [hs] at h
+          simp only [bind, Except.bind, pure, Except.pure] at h
+          refine ⟨lo32 s, hi6 s, ?_, ?_, ?_, hd.1, hd.2, key _ _ h⟩
+          · intro _; exact ⟨s, rfl, rfl, rfl⟩
+          · intro c; cases c
+          · omega
+      | false =>
+        simp only [Bool.false_eq_true, if_false, bind, Except.bind, pure, Except.pure] at h
+        refine ⟨1, 0, ?_, ?_, ?_, hd.1, hd.2, key _ _ h⟩
+        · intro c; cases c
+        · intro _; exact ⟨rfl, rfl⟩
+        · omega
+
+
+/-- `execBlock` on a pooling block without upscaling: rounding mode, gather, pooling branch, scatter -/
+theorem exec_pool_block (m m' : Mem) (ctx : Ctx) (b : BlockOp) (regs : RegFile) (w : Option Weights)
+    (hk : b.kind = .pool) (hu : b.upscale = 0) (h : execBlock m ctx b regs w = .ok m') :
+    ∃ rounding l out, Rounding.ofBits (b.ofmPrecision / 16384 % 4) = some rounding ∧ gatherList m b.ifm = .ok l ∧
+      poolBranch m ctx b rounding (decide (b.ofmPrecision / 256 % 2 = 1)) l.toArray b.ifm.height b.ifm.width = .ok out ∧
+      scatter m b.ofm out.toArray = .ok m' := by
+  unfold execBlock at h
+  simp only [hk, hu, show ¬ ((0 : Nat) > 2) by decide, ne_eq, not_true_eq_false, false_and, if_false, if_true, pure_bind] at h
+  split at h
+  · simp [throw, throwThe, MonadExcept.throw, bind, Except.bind] at h
+  · split at h
+    · simp [throw, throwThe, MonadExcept.throw, bind, Except.bind] at h
+    · split at h
+      · rename_i rounding hro
+        unfold gather at h
+        cases hg : gatherList m b.ifm with
+        | error e => rw [hg] at h; simp [bind, Except.bind] at h
+        | ok l =>
+          rw [hg] at h
+          simp only [bind, Except.bind, pure, Except.pure] at h
+          cases hc : poolBranch m ctx b rounding (decide (b.ofmPrecision / 256 % 2 = 1)) l.toArray b.ifm.height b.ifm.width with
+          | error e => rw [hc] at h; simp at h
+          | ok out =>
+            rw [hc] at h
+            exact ⟨rounding, l, out, hro, rfl, hc, h⟩
+      · simp [throw, throwThe, MonadExcept.throw] at h
+
+/-- **A pooling block, end to end**: after a successful `execBlock` every OFM element (sharing no byte with another) holds the
+    activation of the clamped pooling value (`poolValue`: maximum of the valid window elements minus IFM plus OFM zero point, or
+    the scaled / divided sum) of the window over the memory contents at the IFM addresses, channel `oc`. With
+    `pool_stripe_max_eq` / `pool_stripe_avg_eq` the window is the reference's window of the whole tensor. -/
+theorem exec_pool_block_correct (m m' : Mem) (ctx : Ctx) (b : BlockOp) (regs : RegFile) (w : Option Weights) (s : Nat)
+    (hk : b.kind = .pool) (hu : b.upscale = 0) (h : execBlock m ctx b regs w = .ok m')
+    (hslot : regionSlot b.ofm.region = some s) (hsz : s < m.regions.size)
+    (oy ox oc : Nat) (hy : oy < b.ofm.height) (hx : ox < b.ofm.width) (hc : oc < b.ofm.depth) (hci : oc < b.ifm.depth)
+    (hdisj : ∀ y' x' c', y' < b.ofm.height → x' < b.ofm.width → c' < b.ofm.depth → (y', x', c') ≠ (oy, ox, oc) →
+      fmAddr b.ofm oy ox oc + b.ofm.elemBytes ≤ fmAddr b.ofm y' x' c' ∨ fmAddr b.ofm y' x' c' + b.ofm.elemBytes ≤ fmAddr b.ofm oy ox oc) :
+    ∃ (rounding : Rounding) (scale shift : Nat) (pv v : Int),
+      Rounding.ofBits (b.ofmPrecision / 16384 % 4) = some rounding ∧
+      poolValue b rounding (decide (b.ofmPrecision / 256 % 2 = 1)) scale shift
+        (windowVals b.ifm.height b.ifm.width (fun y x => memFm m b.ifm y x oc) b.kernelH b.kernelW b.strideY b.strideX b.padTop b.padLeft oy ox) = .ok pv ∧
+      applyActivation m ctx b (clamp pv b.actMin b.actMax) = .ok v ∧
+      m'.readElem b.ofm.region (fmAddr b.ofm oy ox oc) b.ofm.elemBytes b.ofm.signed = .ok (wrapElem b.ofm.elemBytes b.ofm.signed v) := by
+  obtain ⟨rounding, l, out, hro, hg, hpb, hsc⟩ := exec_pool_block m m' ctx b regs w hk hu h
+  obtain ⟨scale, shift, _, _, _, _, _, hvals⟩ := poolBranch_ok m ctx b rounding _ l.toArray b.ifm.height b.ifm.width out hpb
+  obtain ⟨pv, v, hv1, hv2, hv3⟩ := hvals oy ox oc hy hx hc
+  refine ⟨rounding, scale, shift, pv, v, hro, ?_, hv3, ?_⟩
+  · rw [← windowVals_congr_inrange b.ifm.height b.ifm.width _ (fun y x => memFm m b.ifm y x oc)
+      (fun y x h1 h2 => gather_getD m b.ifm l hg y x oc h1 h2 hci)]
+    exact hv2
+  · have := scatter_readback m m' b.ofm out.toArray s hslot hsz hsc oy ox oc hy hx hc hdisj
+    rw [this]
+    simp [Array.getD_eq_getD_getElem?, hv1]
+
 /-- non-vacuity: the block of `Lemmas/Exec.lean` (1x2x1 int8 IFM [5, -6], 1x1 kernel of weight 3, bias 1, unit scale) executes
     and leaves [16, -17] in the OFM bytes -/
 example : (match execBlock exMem ⟨1, 0⟩ exBlock default (some exW) with
